@@ -2,16 +2,21 @@
    observed through its exception class or, on success, read_to_memory of the result plus the
    recorded tracklet property / related object / shape of the exported label volume. *)
 From Geff Require Export Base Dtype Vlen Tree Validate Write Read GraphVal Ctc.
+From Geff Require CtcDecide.
 Open Scope list_scope.
 
-Inductive input := IConv (d : ctc) (pre : option znode).
+(* IConvW: the same call with the verdict of the harness predicate consistent() (the gate of the oracle) on the dataset;
+   `check` compares it with CtcDecide.consistentb (proved equivalent to the premise `consistent` of the C15 theorems). *)
+Inductive input :=
+| IConv (d : ctc) (pre : option znode)
+| IConvW (intent : bool) (d : ctc) (pre : option znode).
 Inductive obs :=
 | OErr (e : exn)
 | OOk (back : res mgraph) (x : cextra).
 
 Definition model (i : input) : obs :=
   match i with
-  | IConv d pre =>
+  | IConv d pre | IConvW _ d pre =>
       let (post, r) := run (from_ctc_to_geff d) pre in
       match r with
       | Err e => OErr e
@@ -32,4 +37,9 @@ Definition obs_eqb (a b : obs) : bool :=
   | OOk b1 x1, OOk b2 x2 => res_eqb mgraph_eqb b1 b2 && cextra_eqb x1 x2
   | _, _ => false
   end.
-Definition check (c : input * obs) : bool := obs_eqb (model (fst c)) (snd c).
+Definition intent_ok (i : input) : bool :=
+  match i with
+  | IConvW b d _ => Bool.eqb (CtcDecide.consistentb d) b
+  | _ => true
+  end.
+Definition check (c : input * obs) : bool := obs_eqb (model (fst c)) (snd c) && intent_ok (fst c).
